@@ -200,8 +200,23 @@ def r8_refcell(text: str, names) -> List[Edit]:
     statement; aliasing through other Rc handles during the call is assumed absent."""
     out = []
     ct = code_tokens(lex(text))
+    # local form: `let P = Rc::new(RefCell::new(P));` -> `let mut P = P;` (the by-value parameter P becomes the owned local);
+    # for such a name `P.clone()` becomes `&mut P`
+    local = set()
+    for i, t in enumerate(ct):
+        if t.text == 'let' and i + 15 < len(ct) and ct[i + 1].text in names:
+            seq = [x.text for x in ct[i + 2:i + 16]]
+            if seq == ['=', 'Rc', '::', 'new', '(', 'RefCell', '::', 'new', '(', ct[i + 1].text, ')', ')', ';'][:13] + seq[13:] and seq[12] == ';':
+                local.add(ct[i + 1].text)
+                out.append(Edit(t.start, ct[i + 14].end, 'let mut %s = %s;' % (ct[i + 1].text, ct[i + 1].text), 'R8',
+                                'let %s = Rc::new(RefCell::new(%s)) -> let mut %s = %s' % ((ct[i + 1].text,) * 4)))
+    skip_until = -1
     for i, t in enumerate(ct):
         if t.kind != 'ident' or t.text not in names:
+            continue
+        if t.text in local and i >= 1 and ct[i - 1].text == 'let':
+            continue
+        if t.text in local and i >= 10 and [x.text for x in ct[i - 10:i]] == ['let', t.text, '=', 'Rc', '::', 'new', '(', 'RefCell', '::', 'new'][:10] :
             continue
         nx = [x.text for x in ct[i + 1:i + 7]]
         if nx[:5] == [':', 'Rc', '<', 'RefCell', '<']:
@@ -230,7 +245,10 @@ def r8_refcell(text: str, names) -> List[Edit]:
         elif nx[:4] == ['.', 'clone', '(', ')']:
             if i > 0 and ct[i - 1].text == '.':
                 continue
-            out.append(Edit(t.start, ct[i + 4].end, '&mut *' + t.text, 'R8', '%s.clone() -> &mut *%s' % (t.text, t.text)))
+            if t.text in local:
+                out.append(Edit(t.start, ct[i + 4].end, '&mut ' + t.text, 'R8', '%s.clone() -> &mut %s' % (t.text, t.text)))
+            else:
+                out.append(Edit(t.start, ct[i + 4].end, '&mut *' + t.text, 'R8', '%s.clone() -> &mut *%s' % (t.text, t.text)))
     return out
 
 
@@ -393,4 +411,14 @@ def apply_edits(text: str, edits: List[Edit]):
     return out, kept
 
 
-RULES = {'R1': r1_trace, 'R2': r2_debug_assert, 'R4': r4_clone_from, 'R5': r5_format, 'R6': r6_attrs_docs, 'R10': r10_inner_use, 'R12': r12_static_str, 'R13': r13_let_chain}
+def r14_drain_all(text: str) -> List[Edit]:
+    """R14: `X.drain(..).collect()` -> `vec_drain_all(&mut X)` (an external function of the unit's stubs whose contract says:
+    the result holds exactly the old elements in order, X is left empty).  Dropped: nothing executable - the iterator pair
+    drain/collect is outside the installed Verus and is replaced by its (trusted) meaning."""
+    out = []
+    for m in re.finditer(r'((?:self\s*\.\s*)?[A-Za-z_]\w*(?:\s*\.\s*[A-Za-z_]\w*)*)\s*\.\s*drain\s*\(\s*\.\.\s*\)\s*\.\s*collect\s*\(\s*\)', text):
+        out.append(Edit(m.start(), m.end(), 'vec_drain_all(&mut %s)' % ''.join(m.group(1).split()), 'R14', '%s.drain(..).collect() -> vec_drain_all(&mut ..)' % ''.join(m.group(1).split())))
+    return out
+
+
+RULES = {'R14': r14_drain_all, 'R1': r1_trace, 'R2': r2_debug_assert, 'R4': r4_clone_from, 'R5': r5_format, 'R6': r6_attrs_docs, 'R10': r10_inner_use, 'R12': r12_static_str, 'R13': r13_let_chain}
